@@ -146,6 +146,8 @@ class Session:
         for m in list(self._modules):
             for k in [k for k in sys.modules if k == m or k.startswith(m + ".")]:
                 del sys.modules[k]
+        for nb in getattr(self, "_neighbours", []):
+            sys.modules.pop(nb, None)
         if self._path_added and self.scratch in sys.path:
             sys.path.remove(self.scratch)
         if self.scratch in snapshot.SCRATCH:
@@ -189,7 +191,17 @@ class Session:
             sys.path.insert(0, self.scratch)
             self._path_added = True
         import importlib
+        import types
 
+        # somebody else's module whose name merely begins like a pulse module's (gates and
+        # gates_v2): importing or reloading the one must leave the other alone
+        self._neighbours = []
+        for e in self.plan["texts"]:
+            if e.get("pulses"):
+                nb = e["pulses"]["mod"] + "_v2"
+                if nb not in sys.modules:
+                    sys.modules[nb] = types.ModuleType(nb)
+                    self._neighbours.append(nb)
         importlib.invalidate_caches()
 
     def ensure_module(self, pm):
@@ -465,7 +477,11 @@ class Session:
     def outcome_digest(self, o):
         k = o["kind"]
         if k == "ok":
-            return ("ok", self.value_digest(o["value"]))
+            try:
+                return ("ok", self.value_digest(o["value"]))
+            except RecursionError:
+                # (the harness's own snapshot recurses too: a value nested too deeply for it)
+                return ("ok", "value-too-deep-for-the-snapshot")
         if k == "JaqalParseError":
             e = o["exc"]
             return (k, repr(getattr(e, "line", None)), repr(getattr(e, "column", None)))
@@ -892,6 +908,33 @@ def compare_pristine(rec, ref):
 # ====================================================================== C16
 
 
+DEEP_KINDS = ("loops", "blocks", "aliases", "macros", "subloops")
+
+
+def deep_text(kind, d, exec_):
+    """A small legal program whose only unusual feature is depth d: nested loops, alternating
+    sequential/parallel blocks, an alias of an alias of ..., a macro calling a macro calling
+    ..., a subcircuit under d loops.  Every interpreter has a recursion limit; what the
+    property demands is that hitting it surfaces as a JaqalError (or not at all) and that
+    cost does not explode with depth."""
+    g = "Rx q[0] 0.5" if exec_ else "foo q[0]"
+    pre, post = ("prepare_all\n", "measure_all\n") if exec_ else ("", "")
+    if kind == "loops":
+        return "register q[2]\n" + "loop 1 {\n" * d + pre + g + "\n" + post + "}\n" * d
+    if kind == "blocks":
+        opens = "".join("{\n" if i % 2 == 0 else "<\n" for i in range(d))
+        closes = "".join("}\n" if i % 2 == 0 else ">\n" for i in reversed(range(d)))
+        return "register q[2]\n" + pre + opens + g + "\n" + closes + post
+    if kind == "aliases":
+        g2 = ("Rx a%d[0] 0.5" if exec_ else "foo a%d[0]") % d
+        return "register q[4]\nmap a0 q[0:4]\n" + "".join("map a%d a%d[0:3]\n" % (i + 1, i) for i in range(d)) + pre + g2 + "\n" + post
+    if kind == "macros":
+        return "register q[2]\nmacro m0 a { %s }\n" % g.replace("q[0]", "a") + "".join("macro m%d a { m%d a }\n" % (i + 1, i) for i in range(d)) + pre + "m%d q[0]\n" % d + post
+    if kind == "subloops":
+        return "register q[2]\n" + "loop 1 {\n" * d + "subcircuit { " + g + " }\n" + "}\n" * d
+    raise ValueError(kind)
+
+
 def plan_c16(run_seed):
     st = Streams(run_seed)
     t = st.get("ops")
@@ -969,6 +1012,11 @@ def plan_c16(run_seed):
             e["prog"]["reg"] = None  # programs without a register
             e["exec"] = False
         texts.append(e)
+    if t.chance(0.05):
+        kind = t.choice(DEEP_KINDS)
+        d = t.choice([24, 30, 45] if kind == "aliases" else [40, 160, 220, 320, 520])  # (alias chains cost d^2 as it is)
+        ex = t.chance(0.6)
+        texts.append({"raw": deep_text(kind, d, ex), "anon": not ex, "exec": False, "ov": None, "deep": {"kind": kind, "d": d, "exec": ex}})
     # a module that exists in the import directory but is named absolutely while that
     # directory is not on sys.path: it must stay unfindable whatever relative imports
     # (successful or failed) happened before
@@ -1364,6 +1412,11 @@ def exec_c16(plan, role="main", order=None):
             GS.VARIANT = op.get("variant", 0)
             fn = c16_callable(S, op, j)
             budget = budget_parse(text) + (5_000_000 if op.get("via") in ("run", "run_string", "run_file") else 0)
+            for key in ("nested", "nested_pulse_top"):
+                # a call nested inside this one spends its steps on this call's clock
+                inner_ = (op.get(key) or {}).get("op") if key == "nested" else op.get(key)
+                if inner_:
+                    budget += budget_parse(S.text(inner_["text"])) + (5_000_000 if inner_.get("run") else 0)
             allowed = allowed_for(S, op)
             if op.get("fault"):
                 S.fault("text:" + op["fault"]["kind"])
@@ -1404,10 +1457,15 @@ def exec_c16(plan, role="main", order=None):
 
                 GS.PULSE_TOP_CALLBACK = cb2
             ps_before = process_state(S)
+            mods_before = set(sys.modules)
             o = seams.outcome_of(fn, S.clock, budget)
             GS.CALLBACK = None
             GS.PULSE_TOP_CALLBACK = None
             ps_after = process_state(S)
+            own = [e5["pulses"]["mod"] for e5 in plan2["texts"] if e5.get("pulses")]
+            gone = sorted(m for m in mods_before - set(sys.modules) if not any(m == pm or m.startswith(pm + ".") for pm in own))
+            if gone:
+                S.viol.add("C16", "leaves_nothing_behind", "modules_removed", "sys.modules", "a call that ended in %s removed %r from sys.modules" % (o["kind"], gone[:6]), op=j)
             if ps_after != ps_before:
                 diff = [k for k in ps_before if ps_before[k] != ps_after[k]]
                 S.viol.add("C16", "leaves_nothing_behind", "process_state_changed", ",".join(diff), "after a call that ended in %s: %s" % (o["kind"], "; ".join("%s: %r -> %r" % (k, ps_before[k], ps_after[k]) for k in diff)[:300]), op=j)
@@ -1561,6 +1619,13 @@ def plan_c10(run_seed):
         perm2 = list(perm)
         t.shuffle(perm2)
         seqs.append(perm2)
+    mnames_ = {m["name"] for m in prog["macros"]}
+    anames_ = {m["name"] for m in prog["maps"]}
+    if any(s_["k"] == "gate" and s_["name"] in mnames_ and any(a_[0] == "id" and a_[1] in anames_ for a_ in s_["args"]) for s_ in progast.all_statements(prog)) and t.chance(0.6):
+        # an alias handed whole to a macro: alias fill-in before and after macro expansion
+        # (before: usually not applicable, and then it must say so)
+        seqs.append(["A", "M"])
+        seqs.append(["M", "A"])
     e = {"prog": prog, "noise": cfg["layout_noise"], "anon": cfg["anon"], "exec": profile == "exec", "ov": ov}
     # some sequences substitute under another dictionary O2 (all sequences start from the
     # one shared parse, so anything a pass keeps between calls is exposed)
@@ -1829,6 +1894,16 @@ def candidates(plan):
             t2 = copy.deepcopy(plan["texts"])
             t2[ti]["noise"] = 0.0
             yield variant(texts=t2)
+        if e.get("deep"):
+            # a deep text shrinks by its depth, not by lines
+            dd = e["deep"]
+            for d2 in (dd["d"] // 2, dd["d"] * 3 // 4, dd["d"] - 10, dd["d"] - 1):
+                if 1 <= d2 < dd["d"]:
+                    t2 = copy.deepcopy(plan["texts"])
+                    t2[ti]["deep"] = dict(dd, d=d2)
+                    t2[ti]["raw"] = deep_text(dd["kind"], d2, dd["exec"])
+                    yield variant(texts=t2)
+            continue
         if "raw" in e:
             raw = e["raw"]
             lines = raw.split("\n")
@@ -1853,14 +1928,15 @@ def candidates(plan):
 
 RULE = {
     "C10": "One evaluation = one seeded history of passes: a generated program is parsed once and 2-6 sequences (orders and repetitions, length 1-6) over {expand_macros(+-preserve), fill_in_let(O), expand_subcircuits, fill_in_map} are applied to the shared start circuit; sequences with the same set of pass kinds are compared through the meaning extractor, every pass is applied twice (idempotence in three views), every intermediate circuit is generated and re-parsed, parser flags are compared with explicit passes. Distinct = distinct history digest (sequence set + outcome); non-trivial = at least one sequence of length >= 2 completed.",
-    "C11": "One evaluation = one seeded session history of 4-20 library calls (parse via string/file/S-expression, 8 passes, 7 analyses incl. emulation and output parsing, drops) on a pool of up to 6 shared objects, with cancellation at line event k on a fraction of the operations and nested calls fired from inside ideal_unitary; after every operation every live object and the gate table are re-snapshotted (identity-aware) and the outcome is compared with the same operation on a freshly built copy. Distinct = distinct history digest; non-trivial = the history contains a fault or an operation on a derived object.",
-    "C16": "One evaluation = one seeded session history of 4-16 parse/run calls over up to 3 generated texts and their corrupted variants (truncate, flip, dup, drop, token delete/duplicate/swap, torn tail), pulse-module faults (missing, no attribute, raising top level, package), cancellation at line event k, nested parses at the two re-entrancy points, and the event 'someone imported importlib.util'; a second process lifetime executes the same calls in reversed order and every call's outcome digest must agree. About one run in twelve is an exhaustive sweep of one text: truncation at every offset and two flips per offset. Distinct = distinct history digest; non-trivial = at least one fault fired or a call failed.",
+    "C11": "(The last run of every chunk of 12 is executed once more alone in a new process: its operation log must not depend on the runs before it; run operations may share one backend object.) One evaluation = one seeded session history of 4-20 library calls (parse via string/file/S-expression, 8 passes, 7 analyses incl. emulation and output parsing, drops) on a pool of up to 6 shared objects, with cancellation at line event k on a fraction of the operations and nested calls fired from inside ideal_unitary; after every operation every live object and the gate table are re-snapshotted (identity-aware) and the outcome is compared with the same operation on a freshly built copy. Distinct = distinct history digest; non-trivial = the history contains a fault or an operation on a derived object.",
+    "C16": "One evaluation = one seeded session history of 4-16 parse/run calls over up to 3 generated texts and their corrupted variants (truncate, flip, dup, drop, token delete/duplicate/swap, torn tail), pulse-module faults (missing, no attribute, raising top level, package), cancellation at line event k, nested parses at the two re-entrancy points, and the event 'someone imported importlib.util'; a second process lifetime executes the same calls in reversed order and every call's outcome digest must agree. About one run in twelve is an exhaustive sweep of one text: truncation at every offset and two flips per offset; one run in twenty carries a text whose only unusual feature is depth (40-520 nested loops / alternating blocks / macros calling macros, alias chains of 24-45). Run operations may share one backend object per process lifetime; the last run of every chunk is executed once more alone in a new process and its operation log must agree. Distinct = distinct history digest; non-trivial = at least one fault fired or a call failed.",
 }
 ASSUMPTIONS = [
     "the snapshot R4, the meaning extractor X and the generator/resolver R1 are trusted",
     "the reference for 'unaffected by what came before' is a second process lifetime with the operations in reversed order (each chunk of runs starts from a zygote that has never parsed anything); a fresh-interpreter sample is compared by the determinism self-test",
     "pre-emptive threads are not simulated: the library documents no thread-safety and no property mentions threads; interleaving is explored as nesting at the two re-entrancy points and as operation order",
-    "not demanded, hence not injected: OSError from open(), undecodable bytes, non-existent import_path, RecursionError beyond nesting depth 5, hardware output lists of non-matching length",
+    "not demanded, hence not injected: OSError from open(), undecodable bytes, non-existent import_path, hardware output lists of non-matching length",
+    "depth (nested loops and blocks, alias chains, macro chains up to 520 levels) is injected in C16 only: hitting the interpreter's recursion limit must surface as JaqalError (F41); the harness's own snapshot gives up on values nested deeper than it can walk and compares them by outcome kind only",
     "sampling, not enumeration, except the per-text truncation/flip sweep which is exhaustive for the swept text",
 ]
 EXPECTED_PROBES = {
